@@ -32,3 +32,6 @@ let () =
   register "codesem-all" (function [f] ->
     let fb = Wire_flat.flat_of_sexp f in
     show_list (show_list (show_list show_cell)) (Sem.all_valid (CodeSem.code_sem fb)) | _ -> "!args")
+let () =
+  (* (inf1-why FLAT) -> the conjuncts of in_f1 *)
+  register "inf1-why" (function [f] -> show_list show_bool (CodeSem.f1_why (Wire_flat.flat_of_sexp f)) | _ -> "!args")
